@@ -17,3 +17,18 @@ pub fn json_bytes(b: &[u8]) -> Value {
 pub fn json_os(s: &OsStr) -> Value {
     json_bytes(s.as_bytes())
 }
+
+
+/// C20 runs every scenario in two processes whose inputs have the same CONTENT; attributes that are not
+/// content are made to differ on purpose. Here: the modification time of the exec.d program sources the
+/// test-side writes ($VERIF_SRC_MTIME = old | new), so that output depending on timestamps shows up.
+pub fn age_source(path: &std::path::Path) {
+    let when = match std::env::var("VERIF_SRC_MTIME").as_deref() {
+        Ok("old") => std::time::SystemTime::UNIX_EPOCH + std::time::Duration::from_secs(86_400),
+        Ok("new") => std::time::SystemTime::now() + std::time::Duration::from_secs(3_600),
+        _ => return,
+    };
+    if let Ok(f) = std::fs::File::options().write(true).open(path) {
+        let _ = f.set_modified(when);
+    }
+}
